@@ -49,7 +49,7 @@ def units(tier: str) -> List[Any]:
         if any(x.is_history and x.parent.parent is not None for x in nodes):
             out.append((t, False))
             out.append((t, True))
-            if any(x.is_history and x.parent not in F.default_entry(nodes[0]) for x in nodes):
+            if F.tree_size(t) <= 6 and any(x.is_history and x.parent not in F.default_entry(nodes[0]) for x in nodes):
                 # (the default only matters while the owner was never exited: owners outside the initial configuration)
                 # the default target respelled: leading-dot relative (looked up from the history node) and absolute
                 out.append((t, "dot"))
